@@ -53,8 +53,19 @@ def _install():
         finally:
             emit({"ev": "return", "pid": os.getpid(), "file": str(fname), "pos": pos, "t": time.monotonic(),
                   "proc_fft_after": fft_of(processing_settings)})
+            if lines_on:
+                reached, totals = linereach.result(repo_root)
+                emit({"ev": "lines", "pid": os.getpid(), "reached": reached, "totals": totals})
 
     C._process_hvsr = _process_hvsr
+    # line-reach monitor for the anchored files, inherited by the forked workers
+    lines_on = False
+    try:
+        from hvmon import linereach
+        repo_root = os.path.dirname(os.path.dirname(os.path.abspath(C.__file__)))
+        lines_on = linereach.start("C19", repo_root)
+    except Exception:
+        lines_on = False
 
 
 def main():
